@@ -148,10 +148,10 @@ func solveOne(c *Ctx, o *Obligation, dir string, timeoutMs int, seed int) *Verdi
 			ifile := filepath.Join(dir, sanitizeFile(o.Name)+".inst.smt2")
 			if err := os.WriteFile(ifile, []byte(it), 0o644); err == nil {
 				ms := timeoutMs / 2
-				if ms > 30000 {
-					ms = 30000
+				if ms > 45000 {
+					ms = 45000
 				}
-				if name, out, ok := raceUnsat(ifile, []solverCfg{solvers[0], z3NewArith6, solvers[1]}, ms, seed, &v.Attempts, "inst"); ok {
+				if name, out, ok := raceUnsat(ifile, []solverCfg{solvers[0], z3NewArith6, solvers[1], solvers[2]}, ms, seed, &v.Attempts, "inst"); ok {
 					v.Status, v.Solver, v.Output = "unsat", name+"(inst)", out
 					v.Millis = time.Since(start).Milliseconds()
 					return v
